@@ -24,6 +24,7 @@ import Cog.Drv.FrontDrv
 import Cog.Drv.FrontOaDrv
 import Cog.Drv.KeepsDrv
 import Cog.Drv.FrontEmitDrv
+import Cog.Drv.PyDeclDrv
 open Cog.Drv
 
 def handle (line : String) : String :=
@@ -95,6 +96,7 @@ def handleIO (line : String) : IO String := do
   | "gobuild" :: rest => gobuildLine (" ".intercalate rest)
   | "goconvert" :: rest => goconvertLine (" ".intercalate rest)
   | "pybuild" :: rest => pybuildLine (" ".intercalate rest)
+  | "pydecl" :: rest => pydeclLine (" ".intercalate rest)
   | _ => return handle line
 
 partial def loop (h : IO.FS.Stream) (out : IO.FS.Stream) : IO Unit := do
